@@ -13,12 +13,14 @@
 #include <fcppt/container/grid/fill.hpp>
 #include <fcppt/container/grid/in_range.hpp>
 #include <fcppt/container/grid/in_range_dim.hpp>
+#include <fcppt/container/grid/make_min.hpp>
 #include <fcppt/container/grid/make_pos_range.hpp>
 #include <fcppt/container/grid/make_pos_range_start_end.hpp>
 #include <fcppt/container/grid/make_pos_ref_crange.hpp>
 #include <fcppt/container/grid/make_pos_ref_crange_start_end.hpp>
 #include <fcppt/container/grid/make_pos_ref_range.hpp>
 #include <fcppt/container/grid/make_pos_ref_range_start_end.hpp>
+#include <fcppt/container/grid/make_sup.hpp>
 #include <fcppt/container/grid/map.hpp>
 #include <fcppt/container/grid/min.hpp>
 #include <fcppt/container/grid/min_less_sup.hpp>
@@ -33,9 +35,11 @@
 #include <fcppt/container/grid/range_size.hpp>
 #include <fcppt/container/grid/resize.hpp>
 #include <fcppt/container/grid/sup.hpp>
+#include <fcppt/math/dim/comparison.hpp>
 #include <fcppt/math/dim/contents.hpp>
 #include <fcppt/math/dim/init.hpp>
 #include <fcppt/math/dim/static.hpp>
+#include <fcppt/math/vector/comparison.hpp>
 #include <fcppt/math/vector/init.hpp>
 #include <fcppt/math/vector/static.hpp>
 #include <fcppt/optional/maybe.hpp>
@@ -161,6 +165,8 @@ struct arith
     auto const rs = grid::range_size(m, s);
     r += " size=" + (static_cast<ll>(sz) == static_cast<ll>(rs) ? std::to_string(rs) : std::string("size-mismatch"));
     r += " end=" + ty::str(grid::end_position(m, s));
+    if (!(range.min().get() == m.get()) || !(range.sup().get() == s.get()))
+      return r + " accessor-mismatch";
     std::size_t n = 0;
     std::string ps;
     for (auto it = range.begin(); it != range.end(); ++it)
@@ -172,7 +178,55 @@ struct arith
       ps += ty::str(*it);
       ++n;
     }
+    // iterator protocol (demanded, not modelled): the same positions through *it++; a copy taken before an
+    // increment stays where it was and compares unequal to the advanced iterator; equality is reflexive;
+    // begin() of a non-empty range is not end()
+    {
+      auto it = range.begin();
+      auto const first = range.begin();
+      auto const end = range.end();
+      bool ok = (it == first) && !(it != first) && (end == range.end()) && ((n == 0) == (first == end));
+      std::size_t k = 0;
+      std::string ps2;
+      while (it != end && k < n + 1)
+      {
+        auto const saved = it;
+        auto const old = it++;
+        ok = ok && old == saved && !(old != saved) && ty::str(*old) == ty::str(*saved) && it != saved && !(it == saved) &&
+             !(saved == end);
+        if (k)
+          ps2 += '|';
+        ps2 += ty::str(*saved);
+        ++k;
+      }
+      ok = ok && k == n && ps2 == ps && (n == 0 || ty::str(*first) == ty::str(m.get()));
+      if (!ok)
+        return r + " iterator-protocol-mismatch";
+    }
     return r + " n=" + std::to_string(n) + " ps=" + (n ? ps : "-");
+  }
+};
+
+// a cell type whose move is visible: the rvalue overloads of resize / map / apply (move_if_rvalue) must move
+// every source cell at most once and must produce the values of the lvalue overloads; the lvalue overloads must
+// leave the source alone
+constexpr long moved_mark = -777777;
+
+struct tcell
+{
+  long v;
+  explicit tcell(long const x) : v(x) {}
+  tcell(tcell const &) = default;
+  tcell(tcell &&o) noexcept : v(o.v) { o.v = moved_mark; }
+  tcell &operator=(tcell const &) = default;
+  tcell &operator=(tcell &&o) noexcept
+  {
+    if (&o != this)
+    {
+      v = o.v;
+      o.v = moved_mark;
+    }
+    return *this;
   }
 };
 
@@ -180,6 +234,7 @@ template <std::size_t N>
 struct gr
 {
   using G = grid::object<long, N>;
+  using TG = grid::object<tcell, N>;
   using size_type = typename G::size_type;
   using ut = types<size_type, N>;
   using st = types<long, N>;
@@ -191,12 +246,43 @@ struct gr
     return G(ut::to_dim(d), [k](pos const &p) { return static_cast<long>(enc(k, ut::from(p))); });
   }
 
+  static TG mkt(ivec const &d, ll k)
+  {
+    return TG(ut::to_dim(d), [k](pos const &p) { return tcell(static_cast<long>(enc(k, ut::from(p)))); });
+  }
+
   static std::string cells(G const &g)
   {
     ivec v;
     for (auto it = g.begin(); it != g.end() && v.size() <= loop_cap; ++it)
       v.push_back(*it);
     return il(v);
+  }
+
+  static std::string cells(TG const &g)
+  {
+    ivec v;
+    for (auto it = g.begin(); it != g.end() && v.size() <= loop_cap; ++it)
+      v.push_back(it->v);
+    return il(v);
+  }
+
+  static std::size_t moved_count(TG const &g)
+  {
+    std::size_t n = 0;
+    for (auto it = g.begin(); it != g.end(); ++it)
+      if (it->v == moved_mark)
+        ++n;
+    return n;
+  }
+
+  // number of positions common to two sizes (computed independently of the code under test)
+  static std::size_t common(ivec const &a, ivec const &b)
+  {
+    std::size_t r = 1;
+    for (std::size_t i = 0; i < N; ++i)
+      r *= static_cast<std::size_t>(std::min(a[i], b[i]));
+    return r;
   }
 
   static std::string grid_str(G const &g)
@@ -277,24 +363,80 @@ struct gr
     G const r2{grid::resize(mk(d, k), ut::to_dim(nd), init)};
     if (!(r.size() == r2.size()) || cells(r) != cells(r2))
       return "lvalue-and-rvalue-resize-differ";
+    // cells with a visible move: non-const lvalue source stays as it was, rvalue source loses exactly the cells
+    // that are positions of both grids, results are the same
+    auto const tinit = [k2](pos const &p) { return tcell(static_cast<long>(enc(k2, ut::from(p)))); };
+    TG src{mkt(d, k)};
+    std::string const before = cells(src);
+    TG const t1{grid::resize(src, ut::to_dim(nd), tinit)};
+    if (cells(src) != before || !(src.size() == g.size()))
+      return "lvalue-resize-modified-its-source";
+    TG const t2{grid::resize(std::move(src), ut::to_dim(nd), tinit)};
+    if (!(t1.size() == r.size()) || !(t2.size() == r.size()) || cells(t1) != cells(r) || cells(t2) != cells(r))
+      return "tracked-resize-differs";
+    if (moved_count(src) != common(d, nd)) // NOLINT(bugprone-use-after-move): only the cells were moved
+      return "rvalue-resize-moved-wrong-cells";
     return grid_str(r);
   }
 
   static std::string map_line(ivec const &d, ll k, ll a, ll b)
   {
     G const g{mk(d, k)};
-    return grid_str(grid::map(g, [a, b](long const x) { return static_cast<long>(a * x + b); }));
+    G const r{grid::map(g, [a, b](long const x) { return static_cast<long>(a * x + b); })};
+    auto const tf = [a, b](tcell const c) { return static_cast<long>(a * c.v + b); }; // by value: an rvalue cell is moved from
+    TG src{mkt(d, k)};
+    std::string const before = cells(src);
+    G const t1{grid::map(src, tf)};
+    if (cells(src) != before)
+      return "lvalue-map-modified-its-source";
+    G const t2{grid::map(std::move(src), tf)};
+    if (!(t1.size() == r.size()) || !(t2.size() == r.size()) || cells(t1) != cells(r) || cells(t2) != cells(r))
+      return "tracked-map-differs";
+    if (moved_count(src) != common(d, d)) // NOLINT(bugprone-use-after-move)
+      return "rvalue-map-moved-wrong-cells";
+    return grid_str(r);
   }
 
   static std::string apply_line(std::vector<ivec> const &ds, std::vector<ll> const &ks)
   {
     G const g1{mk(ds[0], ks[0])};
     G const g2{mk(ds[1], ks[1])};
+    TG s1{mkt(ds[0], ks[0])}, s2{mkt(ds[1], ks[1])};
+    std::string const b1 = cells(s1), b2 = cells(s2);
     if (ds.size() == 2)
-      return grid_str(grid::apply([](long const a, long const b) { return static_cast<long>(a * 1009 + b); }, g1, g2));
+    {
+      G const r{grid::apply([](long const a, long const b) { return static_cast<long>(a * 1009 + b); }, g1, g2)};
+      auto const tf = [](tcell const a, tcell const b) { return static_cast<long>(a.v * 1009 + b.v); };
+      G const t1{grid::apply(tf, s1, s2)};
+      if (cells(s1) != b1 || cells(s2) != b2)
+        return "lvalue-apply-modified-its-source";
+      // mixed value categories: first an lvalue, second an rvalue
+      G const t2{grid::apply(tf, s1, std::move(s2))};
+      if (!(t1.size() == r.size()) || !(t2.size() == r.size()) || cells(t1) != cells(r) || cells(t2) != cells(r))
+        return "tracked-apply-differs";
+      bool const same = ds[0] == ds[1];
+      if (cells(s1) != b1 || moved_count(s2) != (same ? common(ds[1], ds[1]) : 0)) // NOLINT(bugprone-use-after-move)
+        return "rvalue-apply-moved-wrong-cells";
+      return grid_str(r);
+    }
     G const g3{mk(ds[2], ks[2])};
-    return grid_str(grid::apply(
-        [](long const a, long const b, long const c) { return static_cast<long>((a * 1009 + b) * 1009 + c); }, g1, g2, g3));
+    TG s3{mkt(ds[2], ks[2])};
+    std::string const b3 = cells(s3);
+    G const r{grid::apply(
+        [](long const a, long const b, long const c) { return static_cast<long>((a * 1009 + b) * 1009 + c); }, g1, g2, g3)};
+    auto const tf = [](tcell const a, tcell const b, tcell const c) { return static_cast<long>((a.v * 1009 + b.v) * 1009 + c.v); };
+    G const t1{grid::apply(tf, s1, s2, s3)};
+    if (cells(s1) != b1 || cells(s2) != b2 || cells(s3) != b3)
+      return "lvalue-apply-modified-its-source";
+    // rvalue, lvalue, rvalue
+    G const t2{grid::apply(tf, std::move(s1), s2, std::move(s3))};
+    if (!(t1.size() == r.size()) || !(t2.size() == r.size()) || cells(t1) != cells(r) || cells(t2) != cells(r))
+      return "tracked-apply-differs";
+    bool const same = ds[0] == ds[1] && ds[0] == ds[2];
+    if (cells(s2) != b2 || moved_count(s1) != (same ? common(ds[0], ds[0]) : 0) || // NOLINT(bugprone-use-after-move)
+        moved_count(s3) != (same ? common(ds[2], ds[2]) : 0))
+      return "rvalue-apply-moved-wrong-cells";
+    return grid_str(r);
   }
 
   static std::string fill_line(ivec const &d, ll v, ll k)
@@ -319,10 +461,19 @@ struct gr
     auto const mn = grid::clamped_min(st::to_pos(smin));
     auto const sp = grid::clamped_sup_signed(st::to_pos(ssup), ut::to_dim(d));
     auto const range = grid::make_pos_ref_range_start_end(g, mn, sp);
-    std::size_t n = 0;
+    std::size_t n = 0, n2 = 0;
     std::string const ref = ref_str(range, n);
+    G const &cg = g;
+    auto const crange = grid::make_pos_ref_crange_start_end(cg, mn, sp);
+    if (ref_str(crange, n2) != ref || n2 != n || crange.size() != range.size())
+      return "const-and-mutable-range-differ";
+    // write through the references of the sub-range into a copy: exactly the cells of the box change
+    G copy{g};
+    ll const k2 = 5;
+    for (auto const &element : grid::make_pos_ref_range_start_end(copy, grid::make_min(mn.get()), grid::make_sup(sp.get())))
+      element.value() = static_cast<long>(enc(k2, ut::from(element.pos())));
     return "mn=" + ut::str(range.min().get()) + " sp=" + ut::str(range.sup().get()) + " size=" + std::to_string(range.size()) +
-           " n=" + std::to_string(n) + " ref=" + ref;
+           " n=" + std::to_string(n) + " ref=" + ref + " w=" + cells(copy);
   }
 };
 
